@@ -66,6 +66,9 @@ FUNCS = {
                                   ('not_secured', 'not secured(self)'),
                                   ('wire_grows', 'slice(ghost.wire_out, 0, length(old(ghost.wire_out))) == old(ghost.wire_out)')])},
         ensures=[
+            # the framing state belongs to recv_raw: message handling never touches it
+            ('rx_buffer_untouched', 'self._Messenger__rx_buf == old(self._Messenger__rx_buf) and '
+                                    'ghost.rx_consumed == old(ghost.rx_consumed)', ['C07']),
             # ---- C17: out-of-place messages ----------------------------------------------------------------
             ('pre_session_transfer_msg_rejected',
              'implies((is_layer(pkt, "TransferSegment") or is_layer(pkt, "TransferAck") or is_layer(pkt, "TransferRefuse") '
